@@ -30,8 +30,8 @@ def gen_request(rng):
         elif r < 0.65:
             req[f] = ""
         elif f in ("announce", "url-list", "httpseeds"):
-            urls = rng.sample(metas.URLS[:3] + metas.URLS[4:], rng.randrange(1, 4))
-            urls = [u for u in urls if " " not in u]
+            pool = [u for u in metas.URLS if not any(ch.isspace() for ch in u)]
+            urls = rng.sample(pool, rng.randrange(1, 4))
             req[f] = urls if rng.random() < 0.6 else " ".join(urls)
         elif f == "private":
             req[f] = "1"
